@@ -1,7 +1,8 @@
 import Beetswap.Proofs.Codec
+import Beetswap.Proofs.Pack
 import Beetswap.Generated
 /-!
-# C09 — The 4 MiB message limit is enforced in both directions (inbound part)
+# C09 — The 4 MiB message limit is enforced in both directions
 -/
 namespace Beetswap.Props.C09
 open Beetswap Beetswap.Proto Beetswap.Frame Beetswap.Spec.Limit
@@ -46,5 +47,40 @@ theorem guards_spec :
 /-- Non-vacuity: `81 80 80 02` denotes 4 MiB + 1. -/
 example : CompleteVarint [0x81, 0x80, 0x80, 0x02] ∧ natValue [0x81, 0x80, 0x80, 0x02] > maxMessageSize := by
   refine ⟨⟨[0x81, 0x80, 0x80], 0x02, rfl, by decide, by decide⟩, by decide⟩
+
+/-! ### Outbound: `take_next_message` of the server connection handler (`Model/ServerHandler`) -/
+section
+open Beetswap.ServerHandler
+
+/-- Nothing is lost, duplicated or reordered by one packing step. -/
+theorem packNext_concat (p : List Block) : (packNext p).1.payload ++ (packNext p).2 = p :=
+  Proofs.Pack.packNext_concat p
+
+/-- Every message takes at least one block (so the handler makes progress). -/
+theorem packNext_progress (p : List Block) (h : p ≠ []) : (packNext p).1.payload ≠ [] :=
+  Proofs.Pack.packNext_progress p h
+
+/-- If each single block fits in a frame, the message does not exceed the limit. -/
+theorem packNext_within_limit (p : List Block) (h : ∀ b ∈ p, blockFieldSize b ≤ maxMessageSize) :
+    sizeMessage (packNext p).1 ≤ maxMessageSize :=
+  Proofs.Pack.packNext_within_limit p h
+
+/-- All frames sent for a batch: together they carry exactly the pending blocks, in order … -/
+theorem frames_concat (p : List Block) : ((frames p).map (·.payload)).flatten = p :=
+  Proofs.Pack.frames_concat p
+
+/-- … and no frame exceeds the limit as long as each individual block fits in one: the encoded
+frame is the length prefix (at most 4 bytes) plus at most 4 MiB. -/
+theorem frames_within_limit (p : List Block) (h : ∀ b ∈ p, blockFieldSize b ≤ maxMessageSize)
+    (m : Message) (hm : m ∈ frames p) :
+    sizeMessage m ≤ maxMessageSize ∧ (encode m).length ≤ maxMessageSize + 4 :=
+  Proofs.Pack.frames_within_limit p h m hm
+
+/-- The frames carry blocks only. -/
+theorem frames_only_blocks (p : List Block) (m : Message) (hm : m ∈ frames p) :
+    m.wantlist = none ∧ m.presences = [] ∧ m.pendingBytes = 0 ∧ m.payload ≠ [] :=
+  Proofs.Pack.frames_only_blocks p m hm
+
+end
 
 end Beetswap.Props.C09
